@@ -4,13 +4,13 @@ CONSTANTS
   Mallory = {"mx"}
   Log = {"l1"}
   MaxSeq = 3
-  PrunePositions <- AllPositions
-  MaxDeliver = 4
-  MaxInFlight = 1
+  PrunePositions <- NonZeroPositions
+  MaxDeliver = 3
+  MaxInFlight = 3
   ForgeBudget = 0
   Classes <- AllClasses
   FineIngest = FALSE
-  Batch = FALSE
+  Batch = TRUE
   Worker = {}
   Variant_ReadLatestBeforeBegin = FALSE
   Defect_PruneAfterFailedIngest = FALSE
